@@ -10,13 +10,13 @@ import (
 
 func init() {
 	register("C06", "Decides the front end's share of 'one verifiable, append-only history' — faithful relaying — as structural necessary conditions: "+
-		"(R1) every STH returned by LogSTHGetter.GetSTH is built in that call from the backend root just fetched: TreeSize ← root.TreeSize, Timestamp ← root.TimestampNanos / 1 000 000 (ns → ms), SHA256RootHash ← root.RootHash, Version V1, signed by signV1TreeHead with the log's signer, and a signing error or empty signature is an error; the root is fetched exactly once per call (by the GetLatestSignedLogRoot RPC in the getter or by the one function it calls that issues it), the request goes to this instance's backend client with this instance's log id whichever way these values reach the RPC, and the function issuing the RPC rejects backend errors, missing or garbled roots and hashes that are not 32 bytes and hands on the root decoded from the reply; "+
+		"(R1) every STH a success return of LogSTHGetter.GetSTH hands out (results read through the result variables of a function with a deferred call) is built in that call from ONE backend root value: TreeSize ← root.TreeSize, Timestamp ← root.TimestampNanos / 1 000 000 (ns → ms), SHA256RootHash ← root.RootHash, Version V1; that root resolves — through the success returns of any number of functions or function literals called on the way, and through a field of an object that a caller published in a cell of this instance, every store into that field being such a root fetched for the instance the object was published in and the publisher withdrawing the object on every way out (so a root found there belongs to a fetch still in flight, never to a finished one) — to the local a GetLatestSignedLogRoot reply was decoded into, the request going to this instance's backend client with this instance's log id whichever way these values reach the RPC, and the function issuing the RPC rejects backend errors, missing or garbled roots and hashes that are not 32 bytes; a root the getter merely remembered from an earlier call is not such a root; the errors of the fetch and of the signing block the success returns, and an empty signature is an error; every STH handed out is signed: signV1TreeHead with the log's signer was passed on every path to the return, or its signature is that of a tree head the getter remembered, which is decided safe only if the signature is reused under an equality test of every field the signature input is serialised from (read off ct.SerializeSTHSignatureInput: Version, TreeSize, Timestamp, SHA256RootHash; a field that is the same constant in every tree head built counts as equal), each compared after the served tree head's field was set, the remembered tree head is (a whole-value copy of) the tree head this function built, taken only after its signing succeeded with a non-empty signature, is written by nobody else and never modified in place, and the getter's cell is accessed under a mutex of the getter (lock discipline over the whole module); "+
 		"(R2) signV1TreeHead signs SHA-256 of SerializeSTHSignatureInput(*sth) with SHA-256 options and uses a cached signature only when the cache holds a signature for exactly those bytes; "+
 		"(R3) SignatureCache and ctutil.LogInfo state is accessed under its mutex; "+
 		"(R4) get-sth-consistency / get-proof-by-hash / get-entry-and-proof forward first/second, hash/tree_size, leaf_index/tree_size to the backend fields of the same meaning on this log and relay the proof hashes, leaf index and leaf bytes of the backend's reply (whichever function issues the RPC: the handler or the one function it calls for it), and the leaf get-entry-and-proof relays has gone through FixLogLeaf, its failure blocking success; first = 0 ⇒ empty proof; writeSTH serialises the STH it was given; "+
 		"(R5) the client library sends each argument under its RFC 6962 parameter name and VerifyInclusionAt verifies (index, size, leaf hash, path, root) in that order and returns the index only after verification; the leaf hash is SHA-256(0x00 ‖ leaf); "+
 		"(R6) the STH getter is chosen only in newLogInfo and get-sth reaches the backend only through it. "+
-		"NOT covered: append-only-ness and proof validity (backend + Merkle library), linkage of STHs across a history, sequencing, concurrency of handlers beyond the shared state of R3.",
+		"NOT covered: append-only-ness and proof validity (backend + Merkle library), linkage of STHs across a history, sequencing, concurrency of handlers beyond the shared state of R3 and the getter's remembered tree head; for a root shared between concurrent callers: that a waiter reads the shared root only after the fetch completed (channel / flag synchronisation), and how long before a waiter's own request the backend may have read a root that was in flight when the waiter arrived; aliasing between a remembered tree head and one handed to a caller (callers are assumed not to modify the STH they receive).",
 		runC06)
 }
 
@@ -25,63 +25,10 @@ func runC06(r *Run) {
 
 	r.Rule("C06.R1")
 	if fn := r.Fn("(*trillian/ctfe.LogSTHGetter).GetSTH"); fn != nil {
-		// where the backend root comes from: one fetch (the RPC itself or the one helper issuing it), sent on this
-		// instance's client for this instance's log id, its failures rejected, its reply decoded
-		rf := c06RootFetch(r, fn, "GetSTH", "p0.li")
-		nOK := 0
-		for _, ret := range Returns(fn) {
-			if errKind(ret.Results[1]) != "nil" {
-				continue
-			}
-			nOK++
-			a := baseAlloc(ret.Results[0])
-			if a == nil || a.Parent() != fn {
-				r.Fail("GetSTH:fresh", r.Where(ret), "a success return hands out "+r.D.D(ret.Results[0])+", not an STH built in this call from the root just fetched (stale size/timestamp/root can be served)")
-				continue
-			}
-			r.Pass("GetSTH:fresh", r.Where(ret), "the returned STH is allocated in this call")
-			if rf == nil {
-				continue // undecided: already recorded by c06RootFetch
-			}
-			root := rf.root
-			r.ExpectFields(fn, "GetSTH", ret.Results[0], map[string]string{
-				"Version":  "0",
-				"TreeSize": root + ".TreeSize",
-			})
-			name := r.D.allocName(a)
-			for _, st := range r.StoresTo(fn, "&("+name+".TreeSize)") {
-				rf.after(r, "GetSTH.TreeSize", st)
-			}
-			for _, st := range r.StoresTo(fn, "&("+name+".Timestamp)") {
-				got := r.D.Lin(st.Val, nil).String()
-				r.Check("GetSTH.Timestamp", glob("+quo(+"+root+".TimestampNanos, +1000000)", got), r.Where(st), "Timestamp = "+got+" (backend nanoseconds / 1 000 000 = RFC 6962 milliseconds)")
-				rf.after(r, "GetSTH.Timestamp", st)
-			}
-			r.Check("GetSTH.Timestamp:set", len(r.StoresTo(fn, "&("+name+".Timestamp)")) == 1, r.Where(ret), "exactly one store to Timestamp")
-			// root hash copied from the backend root
-			okCopy := false
-			for _, c := range CallsTo(fn, "copy") {
-				if r.D.D(CallArgs(c)[0]) == name+".SHA256RootHash[:]" && glob(root+".RootHash", r.D.D(CallArgs(c)[1])) {
-					okCopy = true
-					rf.after(r, "GetSTH.SHA256RootHash", c)
-				}
-			}
-			r.Check("GetSTH.SHA256RootHash", okCopy, r.Where(ret), "SHA256RootHash ← copy(root.RootHash)")
-			if c := r.OneCall(fn, "GetSTH:sign", "trillian/ctfe.signV1TreeHead"); c != nil {
-				r.ExpectArg(c, "GetSTH:sign.signer", 0, "p0.li.signer")
-				r.Check("GetSTH:sign.sth", baseAlloc(CallArgs(c)[1]) == a, r.Where(c), "the STH signed is the STH returned")
-				r.ExpectArg(c, "GetSTH:sign.cache", 2, "&(p0.cache)")
-			}
-		}
-		r.Check("GetSTH:success-return", nOK >= 1, r.FnPos(fn), fmt.Sprintf("%d success returns", nOK))
-		// errors of the module's helpers (root fetch, signing) block the success return; when the fetch is done in
-		// GetSTH itself its failures are the edges checked by c06RootFetch
-		if rf != nil && rf.h == fn {
-			r.ErrorsGate(fn, "GetSTH:errors", "trillian/ctfe.*", 1)
-		} else {
-			r.ErrorsGate(fn, "GetSTH:errors", "trillian/ctfe.*", 2)
-		}
-		r.FailEdge(fn, "GetSTH", EdgeSpec{Name: "empty-signature", Atom: ordAtomR("len(*.TreeHeadSignature.Signature)", "0"), Bad: "=", Want: wantErr(true)})
+		// what a success return hands out: an STH built in this call from one root that resolves to the decoded reply
+		// of a latest-root RPC sent for this instance, signed in this call or carrying a remembered signature that is
+		// decided safe (rules_t8c06.go)
+		c06GetSTH(r, fn)
 	}
 
 	r.Rule("C06.R2")
@@ -235,6 +182,7 @@ func runC06(r *Run) {
 		c01Leaf(r)
 	})
 	c06MoreShares(r)
+	c06DumpObls(r)
 }
 
 // c06MoreShares: further mechanisms this property rests on, decided by the rule sets of the
@@ -255,6 +203,8 @@ func c06MoreShares(r *Run) {
 	r.Shared("C06.R11", func() {
 		r.Rule("C01.R5")
 		c01LogLeaf(r)
+		r.Rule("C01.R6")
+		c01ChainHandedOn(r)
 	})
 }
 
@@ -574,134 +524,6 @@ func c06Client(r *Run) {
 // ---- C06.R1: the fetch of the backend's latest root ---------------------------------------------------------
 
 const latestRootRPC = "iface(trillian.TrillianLogClient).GetLatestSignedLogRoot"
-
-// rootFetch is the one place a getter obtains the backend's latest log root from.
-type rootFetch struct {
-	fn   *ssa.Function       // the getter
-	h    *ssa.Function       // the function issuing the RPC: fn itself, or the helper fn calls
-	call ssa.CallInstruction // the call fn → h (nil when h == fn)
-	rpc  ssa.CallInstruction // the RPC in h
-	dec  ssa.CallInstruction // the (*types.LogRootV1).UnmarshalBinary call in h that decodes the reply
-	root string              // origin term of the fetched root in fn's frame
-}
-
-// c06RootFetch locates the fetch of the latest backend root in getter fn and decides, whichever way the values
-// travel (arguments of a helper in any order, fields of the instance read by the helper itself, or the helper's
-// body written out in fn):
-//   - there is exactly one fetch: one GetLatestSignedLogRoot RPC in fn, or one call to the module function issuing it;
-//   - the client the request is sent on is <li>.rpcClient and the request's LogId is <li>.logID, both rendered in
-//     fn's frame (the helper's parameters are replaced by the origin terms of the call's arguments);
-//   - a backend error, an absent root, an undecodable root and a root hash that is not 32 bytes can only reach error
-//     returns of the function issuing the RPC;
-//   - the root handed on is the value decoded from the reply's SignedLogRoot.LogRoot.
-//
-// k prefixes the keys; li is the origin term of the log instance in fn's frame.  nil ⇒ undecided (recorded).
-func c06RootFetch(r *Run, fn *ssa.Function, k, li string) *rootFetch {
-	rf := &rootFetch{fn: fn}
-	var sites []ssa.CallInstruction
-	sites = append(sites, CallsTo(fn, latestRootRPC)...)
-	nDirect := len(sites)
-	eachInstr(fn, func(in ssa.Instruction) {
-		ci, ok := in.(ssa.CallInstruction)
-		if !ok {
-			return
-		}
-		if f := ci.Common().StaticCallee(); f != nil && f != fn && len(f.Blocks) > 0 && len(CallsTo(f, latestRootRPC)) > 0 {
-			sites = append(sites, ci)
-		}
-	})
-	if len(sites) != 1 {
-		r.Fail(k+":root", r.FnPos(fn), fmt.Sprintf("expected exactly one fetch of the backend's latest root in %s (the %s RPC or one call of the function issuing it), found %d", FuncName(fn), latestRootRPC, len(sites)))
-		return nil
-	}
-	r.Pass(k+":root", r.Where(sites[0]), "one fetch of the backend's latest root: "+CalleeOf(sites[0]))
-	hk := k // key prefix of the obligations on the function issuing the RPC
-	if nDirect == 1 {
-		rf.h, rf.rpc = fn, sites[0]
-	} else {
-		rf.call = sites[0]
-		rf.h = rf.call.Common().StaticCallee()
-		rf.rpc = r.OneCall(rf.h, short(FuncName(rf.h))+":rpc", latestRootRPC)
-		if rf.rpc == nil {
-			return nil
-		}
-		hk = short(FuncName(rf.h))
-		r.Funcs[FuncName(rf.h)] = true
-	}
-	h := rf.h
-	// what reaches the RPC, in fn's frame
-	client := rf.toCaller(r, r.D.D(CallArgs(rf.rpc)[0]))
-	r.Check(k+":root.client", client == li+".rpcClient", r.Where(rf.rpc), fmt.Sprintf("the root is requested on %s (expected %s.rpcClient: this instance's backend client)", client, li))
-	if a := baseAlloc(CallArgs(rf.rpc)[2]); a == nil || a.Parent() != h {
-		r.Fail(k+":root.logID", r.Where(rf.rpc), "undecided: the request "+r.D.D(CallArgs(rf.rpc)[2])+" is not built in a local allocation of "+FuncName(h))
-	} else {
-		sts := r.StoresTo(h, "&("+r.D.allocName(a)+".LogId)")
-		if len(sts) == 0 {
-			r.Fail(k+":root.logID", r.Where(rf.rpc), "the request's LogId is never set")
-		}
-		for _, st := range sts {
-			got := rf.toCaller(r, r.D.D(st.Val))
-			r.Check(k+":root.logID", got == li+".logID", r.Where(st), fmt.Sprintf("request.LogId ← %s (expected %s.logID: this instance's tree)", got, li))
-		}
-	}
-	// failures of the fetch
-	r.FailEdge(h, hk, EdgeSpec{Name: "backend-error", Atom: nilAtom(latestRootRPC + "(*)#1"), Bad: "non", Want: wantErr(true)})
-	r.FailEdge(h, hk, EdgeSpec{Name: "root-absent", Atom: nilAtom(latestRootRPC + "(*)#0.SignedLogRoot"), Bad: "nil", Want: wantErr(true)})
-	r.FailEdge(h, hk, EdgeSpec{Name: "root-garbled", Atom: nilAtom("(*types.LogRootV1).UnmarshalBinary(*)"), Bad: "non", Want: wantErr(true)})
-	r.FailEdge(h, hk, EdgeSpec{Name: "hash-size", Atom: ordAtomR("len("+decodedRoot(r, h)+".RootHash)", "32"), Bad: "<,>", Want: wantErr(true)})
-	// the decoded reply
-	var dec []ssa.CallInstruction
-	for _, c := range CallsTo(h, "(*types.LogRootV1).UnmarshalBinary") {
-		if glob("(*trillian.SignedLogRoot).GetLogRoot("+latestRootRPC+"(*)#0.SignedLogRoot)", r.D.D(CallArgs(c)[1])) {
-			dec = append(dec, c)
-		}
-	}
-	var da *ssa.Alloc
-	if len(dec) == 1 {
-		da = baseAlloc(CallArgs(dec[0])[0])
-	}
-	if da == nil || da.Parent() != h {
-		r.Fail(hk+":result", r.FnPos(h), fmt.Sprintf("undecided: expected exactly one decoding of the reply's SignedLogRoot.LogRoot into a local root in %s, found %d", FuncName(h), len(dec)))
-		return nil
-	}
-	rf.dec = dec[0]
-	if h == fn {
-		rf.root = r.D.allocName(da)
-		// nothing else writes the decoded root
-		n := len(r.StoresTo(fn, "&("+rf.root+"*")) + len(r.StoresTo(fn, rf.root))
-		r.Check(hk+":result", n == 0, r.Where(rf.dec), fmt.Sprintf("the root used is the one decoded from the backend's SignedLogRoot.LogRoot (%d other writes to it)", n))
-		return rf
-	}
-	rf.root = FuncName(h) + "(*)#0"
-	for _, ret := range Returns(h) {
-		if errKind(ret.Results[len(ret.Results)-1]) == "nil" {
-			r.Check(hk+":result", baseAlloc(ret.Results[0]) == da, r.Where(ret), "returns the root decoded from the backend's SignedLogRoot.LogRoot")
-		}
-	}
-	return rf
-}
-
-// after: when the root is decoded in the getter itself, a use of its fields must come after the decoding
-// (a helper's result is only available after the helper ran, so nothing is to be shown then).
-func (rf *rootFetch) after(r *Run, key string, use ssa.Instruction) {
-	if rf.h != rf.fn || rf.dec == nil {
-		return
-	}
-	r.Check(key+":after-decode", c06InstrDominates(rf.dec, use), r.Where(use), "the root's field is read after the reply was decoded into it")
-}
-
-// toCaller renders an origin term of the frame of the function issuing the RPC in the getter's frame: parameter
-// pN becomes the origin term of argument N of the getter's call (identity when the RPC is issued by the getter).
-func (rf *rootFetch) toCaller(r *Run, term string) string {
-	if rf.call == nil {
-		return term
-	}
-	var args []string
-	for _, a := range CallArgs(rf.call) {
-		args = append(args, r.D.D(a))
-	}
-	return c06SubstParams(term, args)
-}
 
 // c06SubstParams replaces every parameter token pN of an origin term (outside string constants, not a field
 // selector) by args[N]; a parameter without argument is rendered opaque so that no expectation can match it.
